@@ -93,17 +93,33 @@ def r11_1(run):
                 nn = cfg.stmt_node_containing(s.call)
                 guards = [t for t, st in cfg.stmt.items() if cfg.label[t] == "If" and "isinstance(" in norm(st) and cfg.edge_dominates(t, "true", nn)]
                 okg = False
+                SCALARS = {"Number", "Real", "Integral", "int", "float", "numbers.Number", "np.number"}
                 for t in guards:
-                    classes = set()
-                    for x in ast.walk(cfg.stmt[t]):
-                        if isinstance(x, ast.Call) and dotted(x.func) == "isinstance" and len(x.args) == 2 and norm(x.args[0]) == other:
-                            cl = x.args[1]
-                            classes |= {norm(e) for e in (cl.elts if isinstance(cl, ast.Tuple) else [cl])}
-                    if classes and classes <= {"Number", "np.ndarray", "Real", "Integral", "int", "float", "numbers.Number", "np.number"}:
+                    tst = cfg.stmt[t]
+                    disj = tst.values if isinstance(tst, ast.BoolOp) and isinstance(tst.op, ast.Or) else [tst]
+                    good = True
+                    for dj in disj:
+                        conj = dj.values if isinstance(dj, ast.BoolOp) and isinstance(dj.op, ast.And) else [dj]
+                        kinds = set()
+                        zero_d = False
+                        for cj in conj:
+                            if isinstance(cj, ast.Call) and dotted(cj.func) == "isinstance" and len(cj.args) == 2 and norm(cj.args[0]) == other:
+                                cl = cj.args[1]
+                                kinds |= {norm(e) for e in (cl.elts if isinstance(cl, ast.Tuple) else [cl])}
+                            if norm(cj).replace(" ", "") == f"{other}.ndim==0":
+                                zero_d = True
+                        # every way of entering the shortcut must prove: a Python/NumPy scalar, or a 0-d ndarray
+                        if kinds and kinds <= SCALARS:
+                            continue
+                        if kinds and kinds <= (SCALARS | {"np.ndarray"}) and zero_d:
+                            continue
+                        good = False
+                    if good:
                         okg = True
                 run.ob("R11.1", loc(m, s.call), m.short, f"{name}: the exponent is dropped from the op's inputs only when it is provably not a Tensor", okg,
-                       "shortcut guarded by isinstance(other, Number / np.ndarray)" if okg else
-                       "the x**1 / x**2 shortcut can swallow a Tensor exponent: it silently leaves the graph and receives no gradient")
+                       "every disjunct of the guard proves a scalar or a 0-d ndarray" if okg else
+                       "the x**1 / x**2 shortcut can be entered with a Tensor exponent (it silently leaves the graph) or with an exponent that is "
+                       "not 0-d (the result loses the broadcast shape)")
         # the general kernel is reachable (a shortcut must not shadow it)
         if name in ("__pow__", "__ipow__"):
             gen = [s for s in ss if s.op_cls and _ufunc_of(run, s.op_cls) == uf]
@@ -173,6 +189,9 @@ def r11_2(run):
             for i, (x, y) in enumerate(zip(a.op_args, b.op_args)):
                 if not (isinstance(x, ast.Name) and isinstance(y, ast.Name)):
                     continue
+                # both wrappers expose the option under the same name: it must land in the same position
+                if x.id in mparams and y.id in fparams and x.id in fparams and y.id in mparams and x.id != y.id:
+                    problems.append(f"op_args[{i}]: method passes `{x.id}`, function passes `{y.id}`")
         da, db = _lit_defaults(m.node), _lit_defaults(f.node)
         for k in set(da) & set(db):
             if k in ("constant",):
@@ -396,6 +415,37 @@ def r11_5(run):
                "no-diff branch only on the false edge of the differentiable test" if ok else "precedence not established")
 
 
+def r11_6(run):
+    """each ufunc metaclass __call__ has two routes (out is a Tensor -> _in_place_op, otherwise _op): same op, operands, keywords"""
+    sites = opcontract.op_sites(run)
+    by = {}
+    for s in sites:
+        if s.fi.module.name == "mygrad.ufuncs._ufunc_creators" and s.fi.name == "__call__":
+            by.setdefault(s.fi.qualname, []).append(s)
+    for q, ss in sorted(by.items()):
+        ip = [s for s in ss if s.kind == "_in_place_op"]
+        op = [s for s in ss if s.kind == "_op"]
+        if len(ip) != 1 or len(op) != 1:
+            run.ob("R11.6", loc(ss[0].fi, ss[0].call), ss[0].fi.short, "one in-place route and one out-of-place route", False, f"{len(ip)} / {len(op)} routes")
+            continue
+        a, b = ip[0], op[0]
+        problems = []
+        if norm(a.op_expr) != norm(b.op_expr):
+            problems.append("different op")
+        if [norm(x) for x in a.tensors] != [norm(x) for x in b.tensors]:
+            problems.append(f"operands {[norm(x) for x in a.tensors]} vs {[norm(x) for x in b.tensors]}")
+        ka = {k: norm(v) for k, v in (a.op_kwargs or {}).items()}
+        kb = {k: norm(v) for k, v in (b.op_kwargs or {}).items()}
+        if ka != kb or a.kwargs_open != b.kwargs_open:
+            problems.append(f"op_kwargs {ka} vs {kb}")
+        if norm(a.constant or ast.Constant(None)) != norm(b.constant or ast.Constant(None)):
+            problems.append("constant= differs")
+        if norm(a.call.func.value) != norm(b.out or ast.Constant(None)) and norm(b.out or ast.Constant(None)) != "out":
+            problems.append("out target differs")
+        run.ob("R11.6", loc(a.fi, a.call), a.fi.short, "the out=<Tensor> route and the general route pass identical operands, keywords and constant", not problems,
+               f"op_kwargs {sorted(ka)}" if not problems else "; ".join(problems) + ": the same ufunc call behaves differently depending on the kind of out= target")
+
+
 def check(run):
     run.rule("R11.1", "operator dunders route to the Operation whose numpy_ufunc is the language-defined kernel, with the right operand order, "
              "in-place forms via _in_place_op returning self", floor=22)
@@ -404,9 +454,11 @@ def check(run):
     run.rule("R11.3", "registry agreement: @ufunc_creator(Op) def name => Op.numpy_ufunc is np.name; numpy overrides of Sequential ops => "
              "numpy_func is np.name", floor=60)
     run.rule("R11.4", "the rounding/modulo family is const-only, in no other table, and dispatched through the raising caster", floor=25)
+    run.rule("R11.6", "ufunc metaclasses: out=<Tensor> route == general route (same op, operands, keywords, constant)", floor=3)
     run.rule("R11.5", "__array_ufunc__/__array_function__ consult the differentiable registry first and forward every argument", floor=5)
     r11_1(run)
     r11_2(run)
     reg = r11_3(run)
     r11_4(run, reg)
     r11_5(run)
+    r11_6(run)
